@@ -152,7 +152,7 @@ def krome_file(draw, nmax=12):
         if k == 0:
             lines.append(draw(st.sampled_from(["", "   ", "\t"])))
         elif k == 1:
-            lines.append(draw(st.sampled_from(["# a comment, with commas", "//another comment", "#"])))
+            lines.append(draw(st.sampled_from(["# a comment, with commas", "//another comment", "#", "  # an indented comment, with commas", "\t// indented", "    #"])))
         elif k == 2:
             lines.append(draw(st.sampled_from(["@var: vt_x = 2.0*Tgas", "@common: vt_user_crate,vt_user_Av", "@var:vt_y=1d0/vt_x"])))
         elif k == 3 and i > 0:
@@ -168,7 +168,8 @@ def krome_file(draw, nmax=12):
         lr = {"fmt": "krome", "r": r, "p": p, "markers_r": [], "a": 0.0, "b": 0.0, "c": 0.0, "tmin": tmin[1], "tmax": tmax[1],
               "idx": draw(st.integers(1, 9999)) if "idx" in order else -1, "code": 999}
         rate = draw(st.sampled_from(KROME_RATES))
-        lines.append(F.encode_krome(lr, order, tmin[0], tmax[0], rate))
+        pad = draw(st.sampled_from([("", "")] * 6 + [("  ", ""), ("\t", "  "), ("", "   ")]))  # KROME strips each line
+        lines.append(pad[0] + F.encode_krome(lr, order, tmin[0], tmax[0], rate) + pad[1])
         lr["rate"] = rate
         expected.append(lr)
     return {"fmt": "krome", "lines": lines, "expected": expected, "trailing_newline": draw(st.booleans())}
